@@ -68,7 +68,7 @@ Qed.
 Lemma intf_dim_le g sp i : Inv g sp -> In i (intfs g) -> fst i <= dim_max (sds g).
 Proof.
   intros HI Hi.
-  destruct (stored_pair g sp i HI Hi) as (a & b & a' & b' & _ & _ & _ & _ & Ha & _ & Hda & _).
+  destruct (stored_pair g sp i HI Hi) as (a & b & a' & b' & _ & _ & _ & Ha & _ & Hda & _).
   pose proof (dim_max_ge _ _ Ha). lia.
 Qed.
 
@@ -76,7 +76,7 @@ Lemma intfs_need_sds g sp : Inv g sp -> intfs g <> [] -> sds g <> [].
 Proof.
   intros HI Hne E. destruct (intfs g) as [|i r] eqn:Ei; [congruence|].
   assert (Hi : In i (intfs g)) by (rewrite Ei; left; auto).
-  destruct (stored_pair g sp i HI Hi) as (a & b & a' & b' & _ & _ & _ & _ & Ha & _).
+  destruct (stored_pair g sp i HI Hi) as (a & b & a' & b' & _ & _ & _ & Ha & _).
   rewrite E in Ha. destruct Ha.
 Qed.
 
@@ -130,7 +130,7 @@ Proof.
   intros HI Hl Hu.
   assert (Hk : NoDup (map fst (i2s g))).
   { rewrite (inv_keys _ _ HI), (inv_intfs _ _ HI). apply (inv_ndI _ _ HI). }
-  destruct (inv_wf _ _ HI i a b Hl) as (_ & _ & _ & _ & _ & Huniq).
+  destruct (inv_wf _ _ HI i a b Hl) as (_ & _ & _ & _ & Huniq).
   (* any interface stored with one of the two orders is i *)
   assert (Hany : forall j e f, In (j, (e, f)) (i2s g) -> unord (e, f) (a, b) -> j = i).
   { intros j e f Hin Hu'. apply In_lookup in Hin; auto.
@@ -154,16 +154,20 @@ Qed.
 
 Lemma obs_pair g sp i a b :
   Inv g sp -> In (i, (a, b)) (pI sp) ->
-  exists hi lo, intf_pair g i = Ok (hi, lo) /\ glt hi lo /\ unord (hi, lo) (a, b) /\
+  exists hi lo, intf_pair g i = Ok (hi, lo) /\ (a <> b -> glt hi lo) /\
+                unord (hi, lo) (a, b) /\
                 pair_to_intf g a b = Ok i /\ pair_to_intf g b a = Ok i.
 Proof.
   intros HI Hin. apply In_lookup in Hin; [|apply (inv_ndI _ _ HI)].
   assert (Hi : In i (intfs g)).
   { rewrite (inv_intfs _ _ HI). apply lookup_keys. congruence. }
-  destruct (stored_pair g sp i HI Hi) as (a0 & b0 & a' & b' & Hl & Hl' & Hu & Hab & Ha & Hb & _).
+  destruct (stored_pair g sp i HI Hi) as (a0 & b0 & a' & b' & Hl & Hl' & Hu & Ha & Hb & _).
   rewrite Hin in Hl. inversion Hl; subst a0 b0.
-  destruct (sort_tuple_ok (sds g) a' b' Ha Hb Hab) as (x & y & Hst & Hlt & Hor).
-  exists x, y. unfold intf_pair. rewrite Hl', Hst. split; auto. split; auto. split.
+  destruct (sort_tuple_gen (sds g) a' b' Ha Hb) as (x & y & Hst & Hlt & Hor).
+  exists x, y. unfold intf_pair. rewrite Hl', Hst. split; auto. split.
+  { intros Hab. apply Hlt. intros ->. apply Hab.
+    unfold unord in Hu; cbn [fst snd] in Hu. intuition congruence. }
+  split.
   - unfold unord in *; cbn [fst snd] in *.
     destruct Hor as [E|E]; inversion E; subst; intuition congruence.
   - split; eapply back_one; eauto; [apply unord_refl | right; cbn; auto].
@@ -292,16 +296,16 @@ Qed.
 
 Lemma thm_pairs ops i a b :
   hist_ok sempty ops = true -> In (i, (a, b)) (pI (present ops)) ->
-  a <> b /\ In a (pS (present ops)) /\ In b (pS (present ops)) /\
-  exists hi lo, intf_pair (final ops) i = Ok (hi, lo) /\ glt hi lo /\
+  In a (pS (present ops)) /\ In b (pS (present ops)) /\
+  exists hi lo, intf_pair (final ops) i = Ok (hi, lo) /\ (a <> b -> glt hi lo) /\
                 ((hi = a /\ lo = b) \/ (hi = b /\ lo = a)) /\
                 pair_to_intf (final ops) a b = Ok i /\ pair_to_intf (final ops) b a = Ok i.
 Proof.
   intros H Hin. pose proof (reach_inv ops H) as HI.
   assert (Hl : lookup i (pI (present ops)) = Some (a, b)).
   { apply In_lookup; auto. apply (inv_ndI _ _ HI). }
-  destruct (inv_wf _ _ HI i a b Hl) as (H1 & H2 & H3 & _).
-  split; auto. split; auto. split; auto.
+  destruct (inv_wf _ _ HI i a b Hl) as (H2 & H3 & _).
+  split; auto. split; auto.
   destruct (obs_pair _ _ i a b HI Hin) as (hi & lo & P1 & P2 & P3 & P4 & P5).
   exists hi, lo. repeat split; auto.
 Qed.
